@@ -365,3 +365,75 @@ example :
                     { binding := some "pods", type := some "Event", watchEvent := some "Added" }]
       = { log := [(0, "__on_kubernetes::pods"), (1, "__main__")], config := false, ok := false } := by
   decide
+
+/-! ## The selection as seen by whatever the handler starts -/
+
+/-- **C19.4** ("with that context selected as current", every place a handler can look from.)
+During the iteration for context number `i` the index variable holds `i`, and `context::jq` returns
+the context at position `i` — in the handler's own shell and its forks AND in every new program the
+handler starts (a helper script that loads the library again, `bash -c`, a program that is not
+bash), whatever selection the hook process itself inherited from its caller. This is where the facts
+"the index is assigned with `export`" and "`context::jq` expands the plain variable" are used. -/
+theorem current_seen (inherited : Option Nat) (i : Nat) (l : Look) :
+    indexSeen inherited i l = some i ∧ currentSeen inherited i l = some i := by
+  have h1 : "select-index" ∈ Facts.c19RunSteps := by decide
+  have h2 : indexVar ∈ Facts.c19RunExports := by decide
+  cases l <;> simp [currentSeen, indexSeen, h1, h2]
+
+/-- The expansion of the index in `context::jq` has no default: code that runs outside a selection
+(no index in its environment) fails instead of silently reading context 0. -/
+theorem no_default_context : Facts.c19CtxIndexDefault = none := by decide
+
+/-- **C19.4** for a whole run: for every list of contexts, every set of defined functions, every
+outcome of the invocations, every assignment of looks (own shell / fork / new program) to the
+handlers and every inherited selection, what the invoked handlers see satisfies the clause
+`Spec.currentOk`: invocation number `n` finds index `n` and the context at position `n`. -/
+theorem current_for_every_look (env : Env) (inherited : Option Nat) (looks : String → Look)
+    (ctxs : List Ctx) (i : Nat) :
+    Spec.currentOk i (viewsOf inherited looks (runFrom env i ctxs).log) = true := by
+  induction ctxs generalizing i with
+  | nil => simp [runFrom, viewsOf, Spec.currentOk]
+  | cons c cs ih =>
+    simp only [runFrom]
+    cases handlers c with
+    | none => simp [viewsOf, Spec.currentOk]
+    | some hs =>
+      dsimp only
+      cases hs.find? env.defined with
+      | none => simp [viewsOf, Spec.currentOk]
+      | some h =>
+        dsimp only
+        have hs := current_seen inherited i (looks h)
+        have ih' := ih (i + 1)
+        unfold viewsOf at ih'
+        by_cases hfail : env.fails i h = true
+        · simp [hfail, viewsOf, Spec.currentOk, hs.1, hs.2]
+        · simp [hfail, viewsOf, Spec.currentOk, hs.1, hs.2, ih']
+
+/-- Index form, tied to the dispatch: the `j`-th invocation is for context `j`, it is the chosen
+handler of that context, and from wherever it looks `context::jq` returns that very context. -/
+theorem invoked_sees_own_context (env : Env) (ctxs : List Ctx) (hw : ∀ c ∈ ctxs, Spec.wellFormed c)
+    (inherited : Option Nat) (l : Look) :
+    ∀ (j n : Nat) (h : String), (runFrom env 0 ctxs).log[j]? = some (n, h) →
+      ∃ c, ctxs[j]? = some c ∧ Spec.chosen env c = some h ∧
+        (currentSeen inherited n l).bind (fun k : Nat => ctxs[k]?) = some c := by
+  intro j n h hj
+  obtain ⟨hn, c, hc, hch⟩ := invoked_is_chosen env ctxs hw 0 j n h hj
+  refine ⟨c, hc, hch, ?_⟩
+  have : n = j := by omega
+  subst this
+  simp [(current_seen inherited n l).2, hc]
+
+/-- `Spec.currentOk` is tight: it rejects an observation in which some program saw another context. -/
+example : Spec.currentOk 0 [(0, some 0, some 0), (1, none, some 0), (2, none, some 0)] = false := by decide
+
+/-! Non-vacuity: three contexts handled by one function that looks from a new program, nothing
+inherited: each invocation sees its own index and context. -/
+example :
+    let env : Env := { defined := fun n => n == "__main__", fails := fun _ _ => false }
+    viewsOf none (fun _ => .exec)
+      (runFrom env 0 [{ binding := some "pods", type := some "Event", watchEvent := some "Added" },
+                      { binding := some "pods", type := some "Event", watchEvent := some "Added" },
+                      { binding := some "cron", type := some "Schedule" }]).log
+      = [(0, some 0, some 0), (1, some 1, some 1), (2, some 2, some 2)] := by
+  decide
